@@ -37,7 +37,7 @@ func plan(tier string, seed uint64) []run {
 	}
 }
 
-const rule = "(a) clock monitor on every write of the replica-synchronisation exploration; (b) breadth-first over all sequences of newbug/edit/edit2/read/readall/merge/reopen/delclocks/brokenrebuild/identmut on one replica with a pre-fetched remote, states deduplicated by (all refs, persisted clock files, live clock values, seam counters, largest edit time seen so far); a state is non-trivial when distinct by that key"
+const rule = "(a) clock monitor on every write of the replica-synchronisation exploration; (c) fault + retry enumeration over clock-file operations (see fault_retry_enumeration); (b) breadth-first over all sequences of newbug/edit/edit2/read/readall/merge/reopen/delclocks/brokenrebuild/identmut on one replica with a pre-fetched remote, states deduplicated by (all refs, persisted clock files, live clock values, seam counters, largest edit time seen so far); a state is non-trivial when distinct by that key"
 
 // Main is the whole C05 check: the monitor on the sync world plus the dedicated clock machine.
 func Main(args []string) {
